@@ -415,7 +415,7 @@ def ws_live(name, scenario, extra=None, **kw):
 def c17_steps(tier):
     if tier == "quick":
         return [ws_live("routing_1x1", "routing", ["--socket_workers", "1", "--swarm_workers", "1", "--ops", "250"]),
-                ws_live("routing_2x2", "routing", ["--socket_workers", "2", "--swarm_workers", "2", "--ops", "350"])]
+                ws_live("routing_2x3", "routing", ["--socket_workers", "2", "--swarm_workers", "3", "--ops", "350"])]
     out = []
     for s in (1, 2, 3):
         for w in (1, 2, 3):
